@@ -191,11 +191,12 @@ def run(pid, tier, seed):
             log("[%s] model checking %s: %s distinct states, %s generated, %.0fs" % (pid, sc, sm["distinct"], sm["states"], sm["wall"]))
         # vacuity: with one documented safeguard switched off the model must lose a wake-up
         sync["vacuity"] = []
-        for vc in ("MC_sync_vac_recheck.cfg", "MC_sync_vac_notify.cfg", "MC_sync_vac_drain.cfg"):
+        for vc, expect in (("MC_sync_vac_recheck.cfg", "NoLostWakeup"), ("MC_sync_vac_notify.cfg", "NoLostWakeup"),
+                           ("MC_sync_vac_drain.cfg", "NoLostWakeup"), ("MC_sync_vac_count.cfg", "CountsAgree")):
             if os.environ.get("VERIF_SKIP_MC"): break
             vm = engine_check.model_check(vc, "MC_sync.tla", workers=2, timeout=600)
-            if vm["violated"] != "NoLostWakeup": raise vlib.Infra("vacuity configuration %s: expected NoLostWakeup, TLC reported %s" % (vc, vm["violated"]))
-            sync["vacuity"].append(dict(config=vc, expected="NoLostWakeup", found=vm["violated"]))
+            if vm["violated"] != expect: raise vlib.Infra("vacuity configuration %s: expected %s, TLC reported %s" % (vc, expect, vm["violated"]))
+            sync["vacuity"].append(dict(config=vc, expected=expect, found=vm["violated"]))
     # (b) implementation traces
     cases = gen_cases(pid, tier, seed, wd)
     tot = engine_check.run_cases(pid, wd, cases, binary)
